@@ -292,7 +292,7 @@ func main() {
 }
 
 // seeds (of the owned stream) for which g_b has a leading zero byte with the default server; found by scanning
-var seedTableGB = []uint64{268, 468}
+var seedTableGB = []uint64{679, 991}
 
 func finish(run *vr.Run, r *runner) {
 	tab := map[string]map[string]int{}
